@@ -310,9 +310,13 @@ func execUpload(vec J, out *Writer) {
 			os.Mkdir(pathOfListed(at-1), 0755)
 		case "dstdir":
 			os.MkdirAll(filepath.Join(dst, bases[at-1].(string), "occupied"), 0755)
-		case "stale":
-			// not a failure: an older upload left a file of the same name and length, with other bytes and a newer mtime
+		case "stale", "stalelong":
+			// not a failure: an older upload left a file of the same name and length (or a LONGER one), with other bytes
+			// and a newer mtime
 			stale := bytes.ToUpper(contentOf(fmt.Sprintf("f%d", at)))
+			if fk == "stalelong" {
+				stale = append(stale, []byte("\n-- tail of an older, longer file --\n")...)
+			}
 			p := filepath.Join(dst, bases[at-1].(string))
 			os.WriteFile(p, stale, 0644)
 			future := time.Now().Add(48 * time.Hour)
@@ -404,9 +408,13 @@ func execUpload(vec J, out *Writer) {
 			os.Remove(ctlPath)
 		case "dstdir":
 			os.MkdirAll(filepath.Join(dst, ctlName, "occupied"), 0755)
-		case "stale":
+		case "stale", "stalelong":
 			p := filepath.Join(dst, ctlName)
-			os.WriteFile(p, bytes.ToUpper(text.Bytes()), 0644)
+			old := bytes.ToUpper(text.Bytes())
+			if fk == "stalelong" {
+				old = append(old, []byte("X-Old: tail of an older, longer control file\n")...)
+			}
+			os.WriteFile(p, old, 0644)
 			future := time.Now().Add(48 * time.Hour)
 			os.Chtimes(p, future, future)
 		}
